@@ -72,7 +72,7 @@ def instantiate(tokens, array_shift=None):
         t = re.sub(r"#\s*" + h + r"\b", h, t)
     for h, r in REWRITE.items():
         t = re.sub(r"#\s*" + h + r"\b", r, t)
-    t = re.sub(r"self\s*\.\s*raw_value", "raw", t)
+    t = re.sub(r"self\s*\.\s*[A-Za-z_]\w*\b(?!\s*\()", "raw", t)     # the storage field, whatever it is called
     t = re.sub(r"\bconst\s+(MASK|CLEAR_MASK)\s*:", r"let \1 :", t)      # a const cannot be initialised from a parameter
     if "#" in t:
         raise Infra("PT: an unknown hole survived the rewrite table: " + t[:200])
@@ -319,7 +319,13 @@ def add_obligations(out, prop, widths=(8, 16, 32, 64, 128)):
     work = os.path.join(xrun.WORK, prop)
     os.makedirs(work, exist_ok=True)
     keys = None if prop == "C16" else {k for k, ps in SERVES.items() if prop in ps}
-    res, lost, found, hs = run(work, widths, keys)
+    try:
+        res, lost, found, hs = run(work, widths, keys)
+    except Infra as e:
+        # the template text no longer fits the rewrite table (renamed locals, new constructs): undecided, never an alarm
+        out.notes.append("PT: template obligations UNDECIDED in this run: " + str(e)[:400])
+        out.extra["pt_undecided"] = "all"
+        return
     if lost:
         out.notes.append("PT: anchors lost or ambiguous, these templates are UNDECIDED in this run (never a violation): " + json.dumps(lost))
         out.extra["pt_undecided"] = sorted(lost)
